@@ -7,7 +7,7 @@ use crate::json::J;
 use crate::rng::Rng;
 use crate::run::{Obs, Prop, RunCfg, Verdict, Worker};
 
-const PREFIXES: &[&str] = &["", " ", "  ", "\t", "# ", "> ", "  # ", "\t> ", "//", "-- ", " * ", "é ", "\u{a0}", "\u{3000}|", "| \t", "x", " \u{a0} ", "\n", "a\nb", "\r"];
+const PREFIXES: &[&str] = &["", " ", "  ", "\t", "# ", "> ", "  # ", "\t> ", "//", "-- ", " * ", "é ", "\u{a0}", "\u{3000}|", "| \t", "x", " \u{a0} ", "\n", "a\nb", "\r", "#\u{a0}", "# \u{a0}", ">\u{3000}", "//\u{2003} ", "é\u{a0}\t"];
 
 fn gen(r: &mut Rng, _cfg: &RunCfg) -> Case {
     let m = Mix::swarm(r, &[Class::Ascii, Class::Wide, Class::Zero, Class::Punct, Class::Space, Class::Para, Class::Prefix, Class::Dirty, Class::Scalars]);
@@ -141,7 +141,7 @@ fn extra(cfg: &RunCfg, w: &mut Worker) {
 pub fn prop() -> Prop {
     Prop {
         id: "C19",
-        rule: "cases = hostile texts (CRLF, empty lines, whitespace-only lines of several kinds, no final newline) x 20 prefixes (empty, whitespace-only, with leading and/or trailing whitespace, multi-byte, containing newlines) + exhaustive line shapes; indent is compared with a line-by-line reference written from the statement; non-trivial = >= 2 lines and a non-empty prefix; distinct = (line bucket, blank line present, prefix has leading / trailing whitespace, final newline, CR, prefix id)",
+        rule: "cases = hostile texts (CRLF, empty lines, whitespace-only lines of several kinds, no final newline) x 25 prefixes (empty, whitespace-only, with leading and/or trailing whitespace, multi-byte, containing newlines) + exhaustive line shapes; indent is compared with a line-by-line reference written from the statement; non-trivial = >= 2 lines and a non-empty prefix; distinct = (line bucket, blank line present, prefix has leading / trailing whitespace, final newline, CR, prefix id)",
         gen,
         check,
         panic_is_violation: false,
